@@ -668,3 +668,58 @@ pub fn remote_member(group: &str, node_id: u64, pid: u64) -> Option<ractor::Acto
 }
 
 pub type FrameLog = BTreeMap<String, u64>;
+
+// ---------------------------------------------------------------------------------
+// an honest raw peer
+
+/// argument bytes of `ProbeMsg::Note(sender, seq)` / `ProbeMsg::Ask(sender, seq, _)`
+pub fn note_args(sender: u32, seq: u32) -> Vec<u8> {
+    let mut args = vec![];
+    for v in [sender, seq] {
+        args.extend_from_slice(&4u64.to_be_bytes());
+        args.extend_from_slice(&v.to_be_bytes());
+    }
+    args
+}
+
+pub fn cast_note(to: u64, sender: u32, seq: u32) -> NetworkMessage {
+    m_node(node::node_message::Msg::Cast(node::Cast { to, what: note_args(sender, seq), variant: "Note".to_string(), metadata: None }))
+}
+
+/// Dial handshake of a peer that knows the cookie. Returns the non-auth frames received meanwhile,
+/// or None when the node did not complete the handshake.
+pub async fn honest_dial(peer: &RawPeer, my_name: &str, cookie: &str, nonce: u64) -> Option<Vec<NetworkMessage>> {
+    let mut other = vec![];
+    peer.send(&m_auth(auth::authentication_message::Msg::Name(auth::NameMessage { name: my_name.to_string(), flags: flags(), connection_string: format!("{}:1", my_name.replace('@', "-")), connection_id: nonce })));
+    let mine: u32 = 0x00c0_ffee;
+    let mut challenge: Option<u32> = None;
+    let mut acked = false;
+    for _ in 0..40 {
+        for f in peer.recv() {
+            match &f.message {
+                Some(meta::network_message::Message::Auth(a)) => match &a.msg {
+                    Some(auth::authentication_message::Msg::ServerChallenge(c)) => {
+                        challenge = Some(c.challenge);
+                        peer.send(&m_auth(auth::authentication_message::Msg::ClientChallenge(auth::ChallengeReply { challenge: mine, digest: sha_digest(cookie, c.challenge) })));
+                    }
+                    Some(auth::authentication_message::Msg::ServerAck(k)) => {
+                        if k.digest == sha_digest(cookie, mine) {
+                            acked = true;
+                        }
+                    }
+                    _ => {}
+                },
+                _ => other.push(f),
+            }
+        }
+        if acked {
+            return Some(other);
+        }
+        if peer.node_hung_up() {
+            return None;
+        }
+        let _ = tokio::time::timeout(std::time::Duration::from_millis(20), peer.readable()).await;
+    }
+    let _ = challenge;
+    None
+}
